@@ -53,7 +53,7 @@ type Result struct {
 var (
 	reGen   = regexp.MustCompile(`(\d+) states generated, (\d+) distinct states found`)
 	reDepth = regexp.MustCompile(`The depth of the complete state graph search is (\d+)`)
-	reCov   = regexp.MustCompile(`^<(\w+) line \d+, col \d+ to line \d+, col \d+ of module (\w+)>: (\d+):(\d+)`)
+	reCov   = regexp.MustCompile(`^<(\w+) line \d+, col \d+ to line \d+, col \d+ of module (\w+)(?: \([\d ]+\))?>: (\d+):(\d+)`)
 	reInv   = regexp.MustCompile(`Invariant (\w+) is violated`)
 	reProp  = regexp.MustCompile(`(?:Temporal|Action) property (\w+) (?:was|is) violated`)
 	rePost  = regexp.MustCompile(`[Pp]ost-?condition (\w+) (?:was|is) violated|Evaluating .* post-?condition`)
